@@ -19,4 +19,6 @@ cd /verif
 git -C /repo apply $wt/SEED/patch.diff || { echo "patch does not apply to /repo"; exit 3; }
 for p in "$@"; do ./check $p quick 2>&1 | grep -E "^C[0-9]+ quick|VIOLATION|KNOWN" | head -4; done > /verif/seeded/$name/check_output.txt
 git -C /repo apply -R $wt/SEED/patch.diff
+# evidence files must describe the unchanged tree
+for p in "$@"; do ./check $p quick >/dev/null 2>&1; done
 cat /verif/seeded/$name/check_output.txt
